@@ -10,10 +10,11 @@ Theorem C09_rollout_reconcile_no_panic :
 Proof. exact Proofs.RolloutSM.reconcile_no_panic. Qed.
 Print Assumptions C09_rollout_reconcile_no_panic.
 
-(* the label patcher tolerates every label value (user-editable pod labels) *)
+(* the label patcher tolerates every label value (user-editable pod labels); pod NAMES are not user-editable: the ordered
+   filter reads the ordinal out of a StatefulSet pod's name *)
 Theorem C09_label_patcher_no_panic :
   forall i, (0 <=? LabelPatch.i_cur i) && (LabelPatch.i_cur i <? zlen (LabelPatch.i_batches i)) = true ->
-  LabelPatch.patch_pod_batch_label i <> Panic.
+  Proofs.LabelPatch.names_ok i = true -> LabelPatch.patch_pod_batch_label i <> Panic.
 Proof. exact Proofs.LabelPatch.patch_total. Qed.
 Print Assumptions C09_label_patcher_no_panic.
 
